@@ -102,6 +102,13 @@ theorem rotr_correct (w x s : Nat) (hw : 1 ≤ w) (hx : x < 2^w) :
     rotr w x s = .ok (Spec.Bits.rotr w x s) :=
   rotr_eq w x s hw hx
 
+/-- rotation counts that are multiples of the width (0, `w`, `2w`, …) return the operand unchanged -/
+theorem rotl_multiple_of_width (w x m : Nat) (hw : 1 ≤ w) (hx : x < 2^w) : rotl w x (m * w) = .ok x := by
+  rw [rotl_eq w x _ hw hx, spec_rotl_multiple w x m hx]
+
+theorem rotr_multiple_of_width (w x m : Nat) (hw : 1 ≤ w) (hx : x < 2^w) : rotr w x (m * w) = .ok x := by
+  rw [rotr_eq w x _ hw hx, spec_rotr_multiple w x m hx]
+
 /-! ## CNL's digit-counting functions -/
 
 /-- `used_digits v` (radix 2) is the bit length of `v` for `v ≥ 0` and of `−v−1` for `v < 0`, for every
